@@ -329,11 +329,18 @@ def run(ctx):
                 if n == 4 and len(fields) >= 230:
                     break
                 fields.append(("u%d" % len(fields), U(tuple((None, t) for nm, t in combo), len(fields) % 4 == 0)))       # implicit tags (type names)
-        recs = [Rec("ZRec", [("a", P("int32"))]), En("ZEnum", [("p", 0), ("q", 1)], None, False, False)]
+        recs = [Rec("ZRec", [("a", P("int32"))]), En("ZEnum", [("p", 0), ("q", 1)], None, False, False),
+                # type parameters used in another order than they are declared
+                Rec("ZEntry", [("value", TP("V")), ("key", TP("K")), ("more", V(TP("V")))], ("K", "V")),
+                Rec("ZTriple", [("c", TP("C")), ("a", TP("A")), ("b", M(P("string"), TP("B")))], ("A", "B", "C")),
+                # field names that are not their own Python identifiers
+                Rec("ZCamel", [("sampleIndex", P("int32")), ("from", P("float32")), ("peakValue", Opt(P("float64"))), ("class", P("string")), ("httpCODE2x", P("uint16"))])]
         protos = []
         for i in range(0, len(fields), 40):
             recs.append(Rec("ZU%d" % (i // 40), fields[i:i + 40]))
             protos.append(Proto("ZP%d" % (i // 40), [("r", N("ZU%d" % (i // 40))), ("s", S(fields[i][1]))]))
+        protos.append(Proto("ZGen", [("e", N("ZEntry", (P("int32"), P("uint32")))), ("t", S(N("ZTriple", (P("int8"), P("string"), P("float64"))))), ("ee", V(N("ZEntry", (P("string"), N("ZRec"))))),
+                                     ("camel", N("ZCamel")), ("camels", A(N("ZCamel"), None)), ("camelGrid", A(N("ZCamel"), 2))]))
         return Pkg("UnionZoo", recs + protos)
 
     def one(item):
@@ -420,7 +427,40 @@ def run(ctx):
                 sub = src if q is pkg else open(os.path.join(pyd, pk, [e for e in os.listdir(os.path.join(pyd, pk)) if os.path.isdir(os.path.join(pyd, pk, e)) and not e.startswith("_")][0], fn)).read() if q.ns != pkg.ns and len(pkg.closure()) == 2 else None
                 if sub is None:
                     continue
+                if kindname == "Converter":
+                    # every path of a record converter (objects and numpy records, writing and reading) uses the yardl field names as JSON keys
+                    for d in q.defs:
+                        if not isinstance(d, Rec):
+                            continue
+                        cm = re.search(r"^class %sConverter\(.*?\):\n(.*?)(?=^class |\Z)" % re.escape(d.name), sub, re.M | re.S)
+                        if not cm:
+                            continue
+                        for meth in ("to_json", "numpy_to_json", "from_json", "from_json_to_numpy"):
+                            mm = re.search(r"    def %s\(self.*?\n(.*?)(?=\n    def |\Z)" % meth, cm.group(1), re.S)
+                            if not mm:
+                                continue
+                            keys = []
+                            for k in re.findall(r'json_object(?:\[|\.get\()"([^"]+)"', mm.group(1)):
+                                if k not in keys:
+                                    keys.append(k)
+                            ctx.count("ndjson-keys.compared")
+                            if keys != [fn for fn, _ in d.fields]:
+                                ctx.violation("plan-differs:py-ndjson:keys:%s" % meth, "%s record %s: %s uses the JSON keys %s, the fields are %s" % (key, d.name, meth, keys, [fn for fn, _ in d.fields]), {"case_dir": root})
+                                ok = False
                 recs = py_record_exprs(sub, kindname)
+                # the constructor of a generic record's serializer / converter takes the element serializers in the order of the type
+                # parameters (that is the order in which every use site passes them)
+                for d in q.defs:
+                    if isinstance(d, Rec) and d.tparams:
+                        cm = re.search(r"^class %s%s\(.*?\):\n\s+def __init__\(self, (.*?)\) -> None:" % (re.escape(d.name), kindname), sub, re.M | re.S)
+                        if cm:
+                            params = [x.split(":")[0].strip() for x in re.split(r",\s*(?=\w+\s*:)", cm.group(1))]
+                            want_params = ["%s_%s" % (re.sub(r"(?<!^)(?=[A-Z])", "_", tp).lower(), kindname.lower()) for tp in d.tparams]
+                            ctx.count("generic-ctor-order.%s" % backend)
+                            if [x for x in params if x.endswith("_" + kindname.lower())] != want_params:
+                                ctx.violation("plan-differs:%s:generic-ctor-order" % backend, "%s %s record %s: constructor takes %s, the type parameters are declared as %s" % (key, backend, d.name, params, list(d.tparams)),
+                                              {"case_dir": root})
+                                ok = False
                 for d in q.defs:
                     if isinstance(d, Rec) and d.name in recs:
                         gots = []
